@@ -35,7 +35,7 @@ func init() {
 	// (the same scenario under C09: what the sinks behind a SHARED filter node receive while several traversals are inside it)
 	register(&Scenario{Prop: "C09", Name: "encrypt-shared-node", Run: runEncryptShared})
 	register(&Scenario{Prop: "C16", Name: "encrypt-keys", Run: func(rc *RunCtx) { runEncrypt(rc, "C16") }})
-	register(&Scenario{Prop: "C16", Name: "encrypt-rotate-conc", Run: runEncryptRotateConc})
+	register(&Scenario{Prop: "C16", Name: "encrypt-rotate-conc", Race: true, RaceFilter: c16RaceFilter, Run: runEncryptRotateConc})
 	register(&Scenario{Prop: "C16", Name: "encrypt-rotate-partial", Run: runEncryptRotatePartial})
 }
 
@@ -74,6 +74,27 @@ type encLeaf struct {
 type encEmb struct {
 	encLeaf
 	Extra string `class:"secret"`
+}
+
+// Embedded structs whose field names collide: Go's selector rules hide such a field from a plain
+// selector (x.Token is ambiguous, x.ID means the outer one), the values are there all the same.
+type EncCreds struct {
+	Token string `class:"secret"`
+	User  string `class:"sensitive"`
+}
+type EncSession struct {
+	Token string `class:"secret"`
+	Note  string
+}
+type EncBase struct {
+	ID   string `class:"secret"`
+	Name string
+}
+type encLogin struct {
+	EncCreds
+	EncSession
+	*EncBase
+	ID string `class:"public"`
 }
 
 // encPubBox tags CONTAINER fields public: a class tag classifies strings and byte slices; on a field that
@@ -989,6 +1010,13 @@ func (g *encGen) payload(kind int, depth int) (interface{}, string) {
 		return g.recordPublic(), "*struct(record,public)"
 	case 21:
 		return g.recordProtected(), "*struct(record,protected)"
+	case 30:
+		return &encLogin{
+			EncCreds:   EncCreds{Token: g.canary(g.treatFor("secret", true), "*login.EncCreds.Token"), User: g.canary(g.treatFor("sensitive", true), "*login.EncCreds.User")},
+			EncSession: EncSession{Token: g.canary(g.treatFor("secret", true), "*login.EncSession.Token"), Note: g.canary(g.treatFor("", false), "*login.EncSession.Note")},
+			EncBase:    &EncBase{ID: g.canary(g.treatFor("secret", true), "*login.EncBase.ID"), Name: g.canary(g.treatFor("", false), "*login.EncBase.Name")},
+			ID:         g.canary("keep", "*login.ID"),
+		}, "*struct(embedded,colliding-field-names)"
 	case 29:
 		pl, el1, al := g.leaf("*pubbox.Ptr"), g.leaf("*pubbox.Elems[]"), g.leaf("*pubbox.Any")
 		return &encPubBox{Ptr: &pl, Val: g.leaf("*pubbox.Val"), Elems: []*encLeaf{&el1}, M: map[string]string{"k": g.canary("redact", "*pubbox.M{}")},
@@ -1465,7 +1493,7 @@ func runEncrypt(rc *RunCtx, prop string) {
 			d := &drawRec{tape: tp}
 			fill := []int{15, 40, 80}[tp.Choose(3, "fill")]
 			g := &encGen{d: d, exp: map[string]*leafExp{}, overrides: overrides, fill: fill, withIgnored: withIgnored}
-			kind := tp.Choose(30, "kind")
+			kind := tp.Choose(31, "kind")
 			depth := tp.Choose(3, "depth")
 			var payload interface{}
 			var top string
@@ -1897,6 +1925,18 @@ func runEncryptShared(rc *RunCtx) {
 	}
 }
 
+// stampClock hands out the call / return stamps of a concurrent history (harness state shared by tasks).
+type stampClock struct{ n int64 }
+
+//go:norace
+func (c *stampClock) next() int64 { c.n++; return c.n }
+
+// c16RaceFilter keeps the races between two accesses made by the encrypt package.
+func c16RaceFilter(sig string) bool {
+	i := strings.Index(sig, "| write ")
+	return i >= 0 && strings.Contains(sig[:i], "/filters/encrypt") && strings.Contains(sig[i:], "/filters/encrypt")
+}
+
 // c10RaceFilter keeps the races in which the encrypt package is the WRITER.
 func c10RaceFilter(sig string) bool {
 	i := strings.Index(sig, "| write ")
@@ -1931,8 +1971,9 @@ func runEncryptRotateConc(rc *RunCtx) {
 		in, out   *encLeaf
 		err       error
 		call, ret int64
+		perEvent  bool // sent with per-event key information (an event id, no salt / info of its own)
 	}
-	var stamp int64
+	var clock stampClock
 	var results []*res
 	type rot struct {
 		v         *keyVersion
@@ -1948,20 +1989,29 @@ func runEncryptRotateConc(rc *RunCtx) {
 			g := &encGen{d: d, exp: map[string]*leafExp{}, fill: 70}
 			l := g.leaf("leaf")
 			r := &res{in: &l}
+			// (their digests are judged by the sequential scenario; here they put the filter's per-event paths
+			// next to a rotation for the race detector, and must come through without an error)
+			r.perEvent = tp.Choose(4, "per-event-info") == 0
 			mine = append(mine, r)
 			results = append(results, r)
 		}
 		sim.Spawn(fmt.Sprintf("sender%d", s), func() {
 			for _, r := range mine {
 				simrt.Yield("sender:step")
-				stamp++
-				r.call = stamp
-				out, err := f.Process(context.Background(), &el.Event{Type: "t", Payload: r.in})
-				stamp++
-				r.ret = stamp
+				r.call = clock.next()
+				var payload interface{} = r.in
+				if r.perEvent {
+					// (the embedded leaf is not copied by copystructure: the fields to protect sit in Body)
+					payload = &encWithInfo{Body: &encOuter{Leaf: *r.in, P: r.in}, evID: fmt.Sprintf("ev-%d", r.call)}
+				}
+				out, err := f.Process(context.Background(), &el.Event{Type: "t", Payload: payload})
+				r.ret = clock.next()
 				r.err = err
 				if out != nil {
 					r.out, _ = out.Payload.(*encLeaf)
+					if wi, ok := out.Payload.(*encWithInfo); ok && wi.Body != nil {
+						r.out = &wi.Body.Leaf
+					}
 				}
 			}
 		})
@@ -1973,15 +2023,13 @@ func runEncryptRotateConc(rc *RunCtx) {
 			simrt.Yield("rotator:step")
 			nv := mk()
 			r := &rot{v: nv}
-			stamp++
-			r.call = stamp
+			r.call = clock.next()
 			if viaPayload {
 				f.Process(context.Background(), &el.Event{Type: "rotate", Payload: &encRotate{w: nv.w, salt: nv.salt, info: nv.info}})
 			} else {
 				f.Rotate(encrypt.WithWrapper(nv.w), encrypt.WithSalt(nv.salt), encrypt.WithInfo(nv.info))
 			}
-			stamp++
-			r.ret = stamp
+			r.ret = clock.next()
 			rots = append(rots, r)
 		}
 	})
@@ -1992,9 +2040,15 @@ func runEncryptRotateConc(rc *RunCtx) {
 		rc.Failf("C16.stuck", stuckClass(sim), "did not finish: %s", strings.Join(sim.StuckInfo, "; "))
 		return
 	}
+	if simrt.RaceBuild {
+		return // the race binary looks for races and panics; the digests are judged by the plain binary on the same seeds
+	}
 	for _, r := range results {
 		if r.err != nil || r.out == nil {
 			rc.Failf("C16.spurious-error", "concurrent-rotation", "Process failed under concurrent rotation: %v", r.err)
+			continue
+		}
+		if r.perEvent {
 			continue
 		}
 		// versions that may be in force during [call, ret]
